@@ -151,9 +151,12 @@ def gen_graph(r, d, nmods):
             m.defs["get-internal-result"] = ("const", None)
             prov_src.append("(contract/out checked (->/c number? any/c))")
             prov_src.append("get-internal-result")
+            # three domain positions with three different contracts (each argument is checked against its own)
+            body.append("(define (checked3 a b c) (list a b c))")
+            prov_src.append("(contract/out checked3 (->/c number? string? symbol? any/c))")
             m.contracted = "checked"
         m.provided = provided
-        m.all_provided = provided + (["checked", "get-internal-result"] if m.contracted else [])
+        m.all_provided = provided + (["checked", "get-internal-result", "checked3"] if m.contracted else [])
         lines.insert(0, "(provide %s)" % " ".join(prov_src))
         m.text = "\n".join(lines + body) + "\n"
         with open(os.path.join(d, m.name + ".scm"), "w") as f:
@@ -179,6 +182,12 @@ def gen_history(r, d, mods):
     engine_visible = set()      # names some earlier require made visible at this engine's top level
     for step in range(r.randint(3, 7)):
         m = r.choice(mods)
+        mpath = os.path.join(d, m.name + ".scm")
+        if m.name not in required and r.random() < 0.3:
+            # the FIRST program that requires m compiles but does not link (unbound global): it is rejected as a whole,
+            # and the correct require that follows must still instantiate m (exactly once)
+            units.append(("fail-link-with-first-require", '(require "%s")\n(verif-emit \'never)\n(this-name-is-bound-nowhere-%d 1)' % (mpath, 50 + step),
+                          ("err", None)))
         spec = gen_spec(r, m, "u%d" % step)
         if spec[0] in ("only", "rename", "prefix-only"):
             # only the plain provided functions are used in probes
@@ -186,7 +195,7 @@ def gen_history(r, d, mods):
         vis = visible_from(spec, m)
         engine_visible |= set(vis)
         if spec[0] in ("plain", "prefix") and m.contracted:
-            engine_visible |= {(spec[1] if spec[0] == "prefix" else "") + "checked", (spec[1] if spec[0] == "prefix" else "") + "get-internal-result"}
+            engine_visible |= {(spec[1] if spec[0] == "prefix" else "") + n for n in ("checked", "get-internal-result", "checked3")}
         vis = {n: v for n, v in vis.items() if v[1] in m.provided}
         src = [spec_source(spec, os.path.join(d, m.name + ".scm"))]
         exp = []
@@ -218,6 +227,26 @@ def gen_history(r, d, mods):
                           ("ok", ['y:"rejected-at-boundary"'])))
         elif k < 0.75:
             units.append(("fail-compile", "(define junk 1)\n(this-name-is-bound-nowhere-%d 1)" % step, ("err", None)))
+        if m.contracted and spec[0] == "plain" and r.random() < 0.5:
+            probes = [("(checked3 1 \"s\" 'sym)", '(L i:1 s:"s" y:"sym")'), ("(checked3 1 \"s\" \"not-a-symbol\")", 'y:"rejected"'),
+                      ("(checked3 1 'not-a-string 'sym)", 'y:"rejected"'), ("(checked3 \"x\" \"s\" 'sym)", 'y:"rejected"')]
+            r.shuffle(probes)
+            units.append(("contract-boundary-3", "\n".join("(verif-emit (with-handler (lambda (e) 'rejected) %s))" % c for c, _ in probes),
+                          ("ok", [e for _, e in probes])))
+        if m.provided and r.random() < 0.5:
+            # the requirer is itself a module (how `steel file.scm` runs a file): only-in from inside a module
+            keep = r.sample(m.provided, r.randint(1, len(m.provided)))
+            x = r.randint(0, 9)
+            if r.random() < 0.5:
+                hidden = list(m.private) + [n for n in m.provided if n not in keep] + (["checked", "checked3", "get-internal-result"] if m.contracted else [])
+                # (a module also sees the globals of the engine's top level: same exclusion as for top-level probes)
+                hidden = [h for h in hidden if h not in engine_visible] or ["hidden-%s" % m.name]
+                h = r.choice(hidden)
+                text = '(require (only-in "%s" %s))\n(verif-emit \'client-before)\n(verif-emit %s)' % (mpath, " ".join(keep), "secret" if h == "secret" else "(%s 1)" % h)
+                units.append(("hidden-name-in-module", {"module": text}, ("hidden", h)))
+            else:
+                text = '(require (only-in "%s" %s))\n(verif-emit (list %s))' % (mpath, " ".join(keep), " ".join("(%s %d)" % (n, x) for n in keep))
+                units.append(("only-in-from-a-module", {"module": text}, ("ok", ["(L %s)" % " ".join("i:%d" % model_call(m, n, x) for n in keep)])))
     return units, required
 
 
@@ -261,6 +290,8 @@ def main(tier):
                 if k >= len(us):
                     break
                 u = us[k]
+                if isinstance(src, dict):
+                    src = "[compiled as a module]\n" + src["module"]
                 em = u.get("emits") or []
                 if u.get("panics"):
                     rep.violation("C14 %s: panic at %s" % (kind, core.panic_sig(tuple(u["panics"][0]))), "config=%s unit:\n%s" % (cname, src), replay)
